@@ -19,7 +19,9 @@ import Refine.Gen.PartMacros
     then the range check `c2n < 1 || nnode < c2n → REF_INVALID` on the 1-based values of the chunk, then the
     decrement and the pyramid shuffle.  `(REF_INT)` casts are modelled (`wrap32`); the places where the C has
     undefined behaviour or does not return are explicit results: `Status.undefined` (`size_per * chunk`
-    overflows `int`), `Status.diverge` (`section_size = 0`: the `while (ncell_read < ncell)` loop makes no progress).
+    overflows `int`), `Status.diverge` (`section_size = 0`: the `while (ncell_read < ncell)` loop makes no progress);
+    since /repo 4474557 every declared cell / geometry count passes `ref_part_meshb_count_fits` first, and
+    `Props/C20PartMeshb.lean` proves both outcomes unreachable behind it (`partCell_loop_progress`, `partCell_no_int_overflow`).
   * `distribute` is the SPMD part on `World PRank` (one entry per rank): vertex block `p` goes to rank `p`; per
     chunk the routing `dest = ref_part_implicit(nnode, np, c2n[size_per*cell])` (FIRST vertex after the pyramid
     shuffle), the counting sort `elements_to_send` / `start_to_send` / `new_location` (`Comm.countDest`,
@@ -264,7 +266,13 @@ def rdGeomSection (cfg : Cfg) (chunkMin : Nat) (v np t : Nat) (ngeom : Int) : P 
   | .error e => .error e
   | .ok _ => rdGeomChunks v t chunk ngeom (ngeom.toNat + 1) 0 s []
 
-/-- a keyword section of `ref_part_meshb`: jump, `ref_part_meshb_long` count, body, `REIS(next_position, ftello)` -/
+/-- `ref_part_meshb_count_fits(file, count)` (rank 0, /repo 4474557), `rest` = the bytes after the count field:
+    `0 <= count && count <= REF_INT_MAX && count <= (end - here) / 4` — C integer division of the remaining bytes -/
+def countFits (count : Int) (rest : Bytes) : Bool :=
+  decide (0 ≤ count) && decide (count ≤ INT_MAX) && decide (count ≤ ((rest.length / 4 : Nat) : Int))
+
+/-- a keyword section of `ref_part_meshb`: jump, `ref_part_meshb_long` count, `ref_part_meshb_count_fits` right after
+    it (`RAS` → `REF_FAILURE`, on rank 0 before anything is broadcast), body, `REIS(next_position, ftello)` -/
 def kwSectionL {α : Type} (v : Nat) (bs : Bytes) (kp : KeyPos) (kw : Nat) (dflt : α)
     (body : Int → P α) : Except Status α :=
   match jump v bs kp kw with
@@ -274,6 +282,7 @@ def kwSectionL {α : Type} (v : Nat) (bs : Bytes) (kp : KeyPos) (kw : Nat) (dflt
     match rdLong v s with
     | .error e => .error e
     | .ok (n, s) =>
+    if !countFits n s then .error .failure else
     match body n s with
     | .error e => .error e
     | .ok (a, s) => if next = tell bs s then .ok a else .error .failure
@@ -610,6 +619,47 @@ def partReadWith (cfg : Cfg) (np chunkMin : Nat) (bs : Bytes) : Except Status (W
   | .ok p => distribute np p
 
 def partRead (np : Nat) (bs : Bytes) : Except Status (World PRank) := partReadWith Cfg.current np chunkConst bs
+
+/-! ## history: the reader before /repo 4474557 (no `ref_part_meshb_count_fits`) -/
+
+def kwSectionLLegacy {α : Type} (v : Nat) (bs : Bytes) (kp : KeyPos) (kw : Nat) (dflt : α)
+    (body : Int → P α) : Except Status α :=
+  match jump v bs kp kw with
+  | .error e => .error e
+  | .ok none => .ok dflt
+  | .ok (some (next, s)) =>
+    match rdLong v s with
+    | .error e => .error e
+    | .ok (n, s) =>
+    match body n s with
+    | .error e => .error e
+    | .ok (a, s) => if next = tell bs s then .ok a else .error .failure
+
+/-- the cell sections of the legacy reader, as far as the first error or the end of the groups (enough for the
+    two recorded counterexamples, whose first cell section already does not return) -/
+def rdCellGroupsLegacy (cfg : Cfg) (chunkMin v np : Nat) (bs : Bytes) (kp : KeyPos) (N : Int) :
+    List CellInfo → Except Status (List (List (List Cell)))
+  | [] => .ok []
+  | ci :: cis =>
+    match kwSectionLLegacy v bs kp ci.kw [] (fun n => rdCellSection cfg chunkMin v np ci N n) with
+    | .error e => .error e
+    | .ok g =>
+    match rdCellGroupsLegacy cfg chunkMin v np bs kp N cis with
+    | .error e => .error e
+    | .ok gs => .ok (g :: gs)
+
+/-- vertex count and cell sections of the legacy reader on `np` ranks -/
+def parseCellsLegacy (cfg : Cfg) (np chunkMin : Nat) (bs : Bytes) : Except Status (List (List (List Cell))) :=
+  match header cfg bs with
+  | .error e => .error e
+  | .ok (v, kp) =>
+  match jump v bs kp 4 with
+  | .error e => .error e
+  | .ok none => .error .failure
+  | .ok (some (_, s)) =>
+  match rdLong v s with
+  | .error e => .error e
+  | .ok (nnode, _) => rdCellGroupsLegacy cfg chunkMin v np bs kp nnode cellInfos
 
 /-! ## views used by the properties -/
 
